@@ -23,6 +23,9 @@ def main(path, reverse=False):
 
     from vpbt import bytecode_model as bm, canon, gen_graphs as gg, models as M
 
+    from numba_scfg.core.datastructures.ast_transforms import SCFG2ASTTransformer
+
+    shared = SCFG2ASTTransformer()  # one transformer object for all source inputs of this process
     inputs = json.load(open(path))
     if reverse:
         inputs = inputs[::-1]
@@ -51,6 +54,10 @@ def main(path, reverse=False):
                     scfg.restructure()
                     parts.append(["restructured", canon.dump(scfg, ordered=True), list(scfg.name_gen.kinds.items())])
                     nsynth = sum(1 for b in M.Flat(scfg).blocks.values() if isinstance(b, SyntheticBlock))
+                    try:
+                        parts.append(["regen-shared", ast.unparse(shared.transform(original=ast.parse(src).body[0], scfg=scfg))])
+                    except Exception as e:
+                        parts.append(["regen-shared", "raised", type(e).__name__])
                     parts.append(["regen", ast.unparse(SCFG2AST(src, scfg))])
                 except Exception as e:
                     parts.append(["EXC", type(e).__name__, str(e)[:80]])
